@@ -170,4 +170,12 @@ let handle (cmd : string) (args : sexp list) : string =
           (if kind_is_write k then "write" else "read")
           (if kind_read_allowed k then "exec" else "noexec")
           (if kind_audited k then "audited" else "silent")) all_kinds)
+  | "docperm", [] ->
+    (* the documented permission per endpoint as the model has it (Auth.v doc_perm) *)
+    let tags = [ "add", TAdd; "audit", TAudit; "backup", TBackup; "clear", TClear; "convert", TConvert; "copy", TCopy;
+                 "delete", TDelete; "exec", TExec; "exec_mut", TExecMut; "optimize", TOptimize; "remove", TRemove;
+                 "rename", TRename; "restore", TRestore; "rollback", TRollback; "user_add", TUserAdd;
+                 "user_list", TUserList; "user_remove", TUserRemove ] in
+    String.concat " " (List.map (fun (n, t) ->
+        Printf.sprintf "(%s %s)" n (match doc_perm t with POwner -> "owner" | PAdmin -> "admin" | PWrite -> "write" | PRead -> "read")) tags)
   | _ -> failwith ("server: bad command " ^ cmd)
